@@ -10,6 +10,7 @@ def declare(E):
     E.declare_ghost(pending="int")
     E.declare_class("paramiko.sftp_file.SFTPFile", {
         "sftp": "opaque:Client", "handle": "bytes", "pipelined": "bool", "_reqs": "list[int]", "_realpos": "nat",
+        "_rbuffer": "bytes", "_pos": "nat",
         "_closed": "bool", "MAX_REQUEST_SIZE": "const:32768", "_saved_exception": "opt[opaque:Exc]"})
     E.opaque_attrs = dict(getattr(E, "opaque_attrs", {}), Client={"sock": "opaque:ChanSock", "_expecting": "opaque:Expecting"})
     E.opaque_exc = dict(getattr(E, "opaque_exc", {}), Exc="Exception")
